@@ -246,6 +246,34 @@ func (r *reader) readBytes(n datamodel.Node, path string) model.Val {
 			if !bytes.Equal(c1, a) || !bytes.Equal(c2, a) || !bytes.Equal(c3, a) {
 				r.issue(path, "largebytes-vs-bytes", "AsBytes=%d bytes; reader1=%d reader2(interleaved)=%d reader1-after-seek=%d", len(a), len(c1), len(c2), len(c3))
 			}
+			// the reader is an io.ReadSeeker: the three whences mean what io.Seeker says, also relative to the
+			// current position and to the end, also on the second reader while the first stands elsewhere
+			if len(a) >= 4 {
+				var pos1, pos2, pos3 int64
+				var s1, s2, s3 []byte
+				var e1, e2, e3 error
+				r.call(path, "LargeBytes.Seek", func() {
+					r1.Seek(1, io.SeekStart)
+					one := make([]byte, 1)
+					io.ReadFull(r1, one)
+					pos1, e1 = r1.Seek(1, io.SeekCurrent) // now at 3
+					s1, _ = io.ReadAll(r1)
+					pos2, e2 = r2.Seek(-3, io.SeekEnd)
+					s2, _ = io.ReadAll(r2)
+					r1.Seek(2, io.SeekStart)
+					pos3, e3 = r1.Seek(0, io.SeekCurrent)
+					s3, _ = io.ReadAll(r1)
+				})
+				if e1 != nil || pos1 != 3 || !bytes.Equal(s1, a[3:]) {
+					r.issue(path, "largebytes-seek", "Seek(1,Start); read 1; Seek(1,Current) = (%d, %v), then %d bytes follow; expected position 3 and %d bytes", pos1, e1, len(s1), len(a)-3)
+				}
+				if e2 != nil || pos2 != int64(len(a))-3 || !bytes.Equal(s2, a[len(a)-3:]) {
+					r.issue(path, "largebytes-seek", "Seek(-3,End) = (%d, %v), then %d bytes follow; expected position %d and the last 3 bytes", pos2, e2, len(s2), len(a)-3)
+				}
+				if e3 != nil || pos3 != 2 || !bytes.Equal(s3, a[2:]) {
+					r.issue(path, "largebytes-seek", "Seek(2,Start); Seek(0,Current) = (%d, %v), then %d bytes follow; expected position 2 and %d bytes", pos3, e3, len(s3), len(a)-2)
+				}
+			}
 			// after the readers were consumed the plain accessor must still agree
 			var c []byte
 			r.call(path, "AsBytes", func() { c, _ = n.AsBytes() })
